@@ -19,9 +19,15 @@
 #endif
 #define CAP 16
 XMLCh vx_pooled[CAP + 1];
+// the document object is raw storage (its class is not in the closure): give it a vtable that serves the one virtual the code under test
+// calls on it, getRanges(); the slot is taken from the pointer-to-member (Itanium ABI: 1 + byte offset into the vtable)
+extern "C" void* vx_getRanges(void*) { return 0; }      // no Range objects registered on the document
+static void* vx_docvt[200];
 extern "C" void harness_chardata(void) {
   VxMM mm; XMLPlatformUtils::fgMemoryManager = &mm;
   static VxRaw<DOMDocumentImpl> dr; DOMDocumentImpl* doc = &dr.obj; doc->fRanges = 0; doc->fMemoryManager = &mm;
+  { typedef Ranges* (DOMDocumentImpl::*GR)() const; GR pmf = &DOMDocumentImpl::getRanges; unsigned long off; memcpy(&off, &pmf, sizeof off);
+    vx_docvt[2 + (off - 1) / 8] = (void*)&vx_getRanges; *(void***)doc = &vx_docvt[2]; }
   static VxRaw<DOMBuffer> br; DOMBuffer* buf = &br.obj; static XMLCh store[CAP + 1];
   static VxRaw<DOMTextImpl> tr;
   static const XMLCh none[] = { 0 };
